@@ -288,7 +288,9 @@ fn plan_for(prop: &str, thorough: bool) -> Plan {
             rule: "one program and one history on up to 8 hosts in lock-step (direct, stream-polled, 1-10 neutral wrapper layers, Core via both macros, bincode and JSON bridges; programs with follow-up programs returned by update on the typed core and the four bridges); non-trivial = at least 3 steps, 2 effects and 1 event; distinct = hash of (program, history)",
         },
         "C06" => Plan {
-            setups: vec![(Setup::DirectM, 4), (Setup::StreamM, 2), (Setup::StreamLag, 2), (Setup::DirectLag, 2), (Setup::EagerM, 1), (Setup::AllTyped, 3)],
+            // (Bridges: late responses for cancelled work arrive under an id, which must not have
+            // been given to anybody else in the meantime)
+            setups: vec![(Setup::DirectM, 4), (Setup::StreamM, 2), (Setup::StreamLag, 2), (Setup::DirectLag, 2), (Setup::EagerM, 1), (Setup::AllTyped, 3), (Setup::Bridges, 3)],
             gen: GenCfg { script_weight: 20, ..base },
             steps,
             cases: (30_000, 12_000_000),
@@ -571,8 +573,36 @@ fn main() {
             let mut instrs = vec![];
             let mut tag = 1u32;
             let mut regs = 0usize;
-            let shape = rng.below(3);
-            if shape == 0 {
+            // one case in six: a backlog - the consumer of a subscription waits for the answer to a
+            // follow-up request while the shell delivers hundreds of further items, then gets its
+            // answer and works the backlog off (whatever bounds a stream's buffer shows here, as a
+            // call that never returns or as items that are lost)
+            let backlog = case_no % 6 == 5;
+            let mut backlog_actions: Vec<Action> = vec![];
+            let shape = if backlog { 3 } else { rng.below(3) };
+            if backlog {
+                let k = rng.range(130, 330) as u32;
+                instrs.push(Instr::Open { site: 1 });
+                instrs.push(Instr::Next { stream: 0 });
+                instrs.push(Instr::Emit { tag, reg: Some(0) });
+                instrs.push(Instr::Req { site: 100, arg: None });
+                regs = 2;
+                for _ in 0..k {
+                    instrs.push(Instr::Next { stream: 0 });
+                    regs += 1;
+                    tag += 1;
+                    instrs.push(Instr::Emit { tag, reg: Some(regs - 1) });
+                }
+                instrs.push(Instr::Req { site: 2, arg: None });
+                let mut val = 7_000u64;
+                for _ in 0..=k {
+                    val += 1;
+                    backlog_actions.push(Action::Resolve { site: 1, arg: 0, val });
+                }
+                backlog_actions.push(Action::Resolve { site: 100, arg: 0, val: 6_999 });
+                backlog_actions.push(Action::Resolve { site: 1, arg: 0, val: 9_999 });
+                backlog_actions.push(Action::Resolve { site: 2, arg: 0, val: 6_998 });
+            } else if shape == 0 {
                 // one burst after one request
                 instrs.push(Instr::Req { site: 1, arg: None });
                 regs += 1;
@@ -610,7 +640,11 @@ fn main() {
                 2 => Cmd::And(Box::new(script), Box::new(Cmd::Notify(9))),
                 _ => Cmd::Then(Box::new(Cmd::Done), Box::new(script)),
             };
-            let setup = *rng.pick(&[Setup::CoreM, Setup::CoreD, Setup::Legacy, Setup::Mixed, Setup::Bridges]);
+            let mut setup = *rng.pick(&[Setup::CoreM, Setup::CoreD, Setup::Legacy, Setup::Mixed, Setup::Bridges]);
+            if backlog {
+                // capability-API and command-API subscriptions in turn
+                setup = [Setup::Legacy, Setup::CoreM, Setup::Mixed, Setup::Bridges][((case_no / 6 + args.worker) % 4) as usize];
+            }
             let program = if setup == Setup::Legacy { match program { Cmd::Async(_) => program, Cmd::MapEvent(c, _) | Cmd::Then(_, c) => *c, Cmd::And(c, _) => *c, other => other } } else { program };
             let (mut hosts, modes) = make_hosts(setup, &program, &mut rng, 1);
             let mut cfg = RunCfg::default_for(400);
@@ -620,11 +654,15 @@ fn main() {
             cfg.reresolve = false;
             cfg.stream_bias = true;
             wd.begin(|| json!({"lane": "cmdlab-long", "setup": setup.name(), "program": program, "rng_state": state}).to_string());
-            let outcome = vcommon::trap(|| run_case(&program, &mut hosts, &modes, &mut rng, &cfg, None));
+            let outcome = vcommon::trap(|| run_case(&program, &mut hosts, &modes, &mut rng, &cfg, if backlog { Some((&backlog_actions, None)) } else { None }));
             wd.end();
             let mut r = report.lock().unwrap();
             r.eval();
             r.count("long_cases", 1);
+            if backlog {
+                r.count("backlog_cases", 1);
+                r.max("max_items_waiting_for_one_consumer", backlog_actions.len() as u64 - 3);
+            }
             match outcome {
                 Ok(outcome) => {
                     let s = &outcome.stats;
